@@ -424,6 +424,7 @@ func c14Gen(r *hx.Rng, n int, tier string) []string {
 	var lines []string
 	// directed cases first: the boundary of every minimum the property names
 	lines = append(lines, directed()...)
+	lines = append(lines, directedWire()...)
 	for len(lines) < n {
 		x := r.Intn(100)
 		switch {
@@ -626,6 +627,59 @@ func directed() []string {
 			one("EcdsaPublicKey", 3, uint64(bk.key.GetOutputPrefixType()), v, fmt.Sprintf("ecdsa-%v-%v", v.Params.Curve, h))
 		}
 	}
+	return lines
+}
+
+// directedWire: corner cases of the wire format around a valid one-key keyset.
+func directedWire() []string {
+	var lines []string
+	base := func(id uint64) *mKeyset {
+		return &mKeyset{Primary: id, Keys: []mKey{toMKey(bank[0], id, 1)}}
+	}
+	add := func(b []byte, label string) { lines = append(lines, "B|"+hx.H(b)+"|wire-"+label+":"+bank[0].name) }
+	grp := func(num protowire.Number, inner []byte) []byte {
+		out := protowire.AppendTag(nil, num, protowire.StartGroupType)
+		out = append(out, inner...)
+		return protowire.AppendTag(out, num, protowire.EndGroupType)
+	}
+	rawTag := func(num uint64, typ uint64) []byte { return protowire.AppendVarint(nil, num<<3|typ) }
+	b := base(7).Marshal()
+	cat := func(x ...[]byte) []byte {
+		var o []byte
+		for _, p := range x {
+			o = append(o, p...)
+		}
+		return o
+	}
+	add(cat(b, grp(9, cat(rawTag(1<<29, 0), []byte{0}))), "group-field-2^29")
+	add(cat(b, grp(9, cat(rawTag(1<<31-1, 0), []byte{0}))), "group-field-maxint32")
+	add(cat(b, grp(9, cat(rawTag(1<<31, 0), []byte{0}))), "group-field-2^31")
+	add(cat(b, grp(9, grp(8, grp(7, appVar(nil, 1, 5))))), "nested-groups")
+	add(cat(b, grp(9, cat(protowire.AppendTag(nil, 8, protowire.StartGroupType), protowire.AppendTag(nil, 7, protowire.EndGroupType)))), "nested-wrong-end")
+	add(cat(b, grp(9, []byte{byte(3<<3 | 2), 200})), "group-length-overrun")
+	add(cat(b, grp(9, []byte{byte(3<<3 | 6)})), "group-reserved-wiretype")
+	add(cat(b, rawTag(1<<29-1, 0), []byte{1}), "field-2^29-1")
+	add(cat(b, rawTag(1<<29, 0), []byte{1}), "field-2^29")
+	add(cat(b, []byte{0x88, 0x00, 7}), "overlong-tag") // tag 8 (field 1 varint) in two bytes: primary = 7 again
+	add(cat(b, []byte{0x88, 0x80, 0x80, 0x80, 0x80, 0x80, 0x80, 0x80, 0x80, 0x00, 7}), "overlong-tag-10")
+	add(cat(b, []byte{0x88, 0x80, 0x80, 0x80, 0x80, 0x80, 0x80, 0x80, 0x80, 0x80, 0x00, 7}), "overlong-tag-11")
+	add(cat(b, []byte{0x08, 0x87, 0x80, 0x80, 0x80, 0x80, 0x80, 0x80, 0x80, 0x80, 0x01}), "primary-2^63+7") // truncated to 7
+	add(cat(b, []byte{0x08, 0x87, 0x80, 0x80, 0x80, 0x80, 0x80, 0x80, 0x80, 0x80, 0x02}), "varint-10th-byte-2")
+	add(cat(b, []byte{0x0d, 7, 0, 0, 0}), "primary-as-fixed32")       // unknown field: primary stays 7
+	add(cat([]byte{0x0d, 7, 0, 0, 0}, b[2:]), "primary-only-fixed32") // no primary at all
+	add(cat(b, []byte{0x09, 7, 0, 0, 0, 0, 0, 0}), "truncated-fixed64")
+	add(cat(b, []byte{0x12, 0x80, 0x00}), "empty-key-overlong-length") // a second, empty key (no key data)
+	add(cat(b, []byte{0x12, 0x00}), "empty-key")
+	zero := base(0)
+	add(zero.Marshal(), "id-zero-primary-absent") // key id 0 = default primary 0: well formed
+	add([]byte{}, "empty-input")
+	add([]byte{0x08, 0x07}, "primary-only")
+	k := base(7)
+	k.Keys[0].DExtra = appBytes(nil, 1, []byte("x")) // type_url twice: last wins -> unknown type "x"
+	add(k.Marshal(), "type-url-twice")
+	k = base(7)
+	k.Keys[0].Extra = appBytes(nil, 1, appVar(nil, 3, 3)) // second key_data piece overrides the material type
+	add(k.Marshal(), "key-data-merged-material")
 	return lines
 }
 
